@@ -48,6 +48,7 @@ def s_jobs(ctx):
                 jobs.append(('S', procs, sc, True))
                 # the engine starts at a non-zero (dyadic) time
                 jobs.append(('S', procs, sc, False, 10.5))
+        jobs += big_clock_jobs(1)
     else:
         for n in (1, 2):
             for procs in itertools.product(pc, repeat=n):
@@ -60,6 +61,22 @@ def s_jobs(ctx):
         for procs in itertools.product(small, repeat=3):
             for sc in sched.scripts(2):
                 jobs.append(('S', procs, sc, True))
+        jobs += big_clock_jobs(2)
+    return jobs
+
+
+BIG_T0 = 1610612736.0     # 1.5 * 2**30: quarters are exact floats there
+
+
+def big_clock_jobs(k):
+    """The clock is ~1e9 times larger than the timesteps (an epoch
+    timestamp as initial_global_time): relative float tolerances must not
+    decide what is due."""
+    jobs = []
+    pc = list(itertools.product([0.25, 1, 3], ['always', 'never']))
+    for procs in itertools.product(pc, repeat=2):
+        for sc in sched.scripts(k):
+            jobs.append(('S', procs, sc, False, BIG_T0))
     return jobs
 
 
